@@ -14,6 +14,9 @@ use std::collections::HashSet;
 pub struct Case {
     pub text: String,
     pub spec: OptSpec,
+    /// pass `&Options` instead of `Options`
+    #[serde(default)]
+    pub by_ref: bool,
 }
 
 pub struct P;
@@ -125,7 +128,12 @@ pub fn check(c: &Case) -> Outcome {
     }
     let t = c.text.as_str();
     let e = spec.ending();
-    let lines = textwrap::wrap(t, spec.options());
+    let opts = spec.options();
+    let lines = if c.by_ref {
+        textwrap::wrap(t, &opts)
+    } else {
+        textwrap::wrap(t, spec.options())
+    };
     ensure!(!lines.is_empty(), "wrap({}) returned no lines", show(t));
     let custom = spec.split.is_custom();
     let mut bodies: Vec<&str> = Vec::with_capacity(lines.len());
@@ -216,7 +224,11 @@ pub fn check(c: &Case) -> Outcome {
         show_lines(&lines)
     );
     // fill: same lines joined by the ending
-    let filled = textwrap::fill(t, spec.options());
+    let filled = if c.by_ref {
+        textwrap::fill(t, &opts)
+    } else {
+        textwrap::fill(t, spec.options())
+    };
     let joined = lines.join(e);
     ensure!(
         filled == joined,
@@ -275,8 +287,8 @@ impl Property for P {
     fn strategy(tier: Tier) -> BoxedStrategy<Case> {
         let mut og = OptGen::full();
         og.algos = gen::AlgoSet::Any;
-        (gen::any_text(Mix::FULL, tier), gen::optspec(og))
-            .prop_map(|(text, spec)| Case { text, spec })
+        (gen::any_text(Mix::FULL, tier), gen::optspec(og), any::<bool>())
+            .prop_map(|(text, spec, by_ref)| Case { text, spec, by_ref })
             .boxed()
     }
     fn check(c: &Case, _m: Mode) -> Outcome {
@@ -308,5 +320,5 @@ pub fn decode(data: &[u8]) -> Case {
     let mut r = crate::fuzzdec::Reader::new(data);
     let mode = r.u8();
     let spec = crate::fuzzdec::optspec(&mut r, true, true);
-    Case { text: crate::fuzzdec::text(mode, r.rest()), spec }
+    Case { text: crate::fuzzdec::text(mode, r.rest()), spec, by_ref: mode & 4 == 4 }
 }
